@@ -54,6 +54,7 @@ OpMatrix(op) ==
     [] op[1] = "skewX"     -> SkewX45
     [] op[1] = "skewY"     -> SkewY45
     [] op[1] = "matrix"    -> <<op[2], op[3], op[4], op[5], op[6], op[7], 1>>
+    [] op[1] = "matrixq"   -> Reduce(<<op[2], op[3], op[4], op[5], op[6], op[7], op[8]>>)
 
 (* a transform list "op1 op2 ..." is the product op1 . op2 . ... *)
 RECURSIVE ListMatrix(_, _)
